@@ -37,6 +37,15 @@ def _init(modname):
     files = sorted({f for (f, _) in _G["reg"].contracts if f != "<extern>"})
     _G["mods"] = loader.load(files)
     _G["setup"] = getattr(importlib.import_module(modname), "engine_setup", None)
+    _G["reg"].pinned_locals = _G.get("pinned_locals", {})
+
+
+def _has(mod, qual):
+    try:
+        mod.find(qual)
+        return True
+    except Exception:
+        return False
 
 
 def _job(args):
@@ -158,6 +167,8 @@ def main(argv=None):
         cd = reg.classes.get(qual.split(".")[0]) if "." in qual else None
         for variant in prove.variant_space(c, cd, "." in qual, c.is_init):
             jobs.append((file, qual, variant, timeout_ms, pid))
+    base_path0 = os.path.join(ROOT, "baseline", f"{pid}.json")
+    _G["pinned_locals"] = json.load(open(base_path0)).get("locals", {}) if os.path.exists(base_path0) else {}
     with mp.Pool(a.jobs, initializer=_init, initargs=(modname,)) as pool:
         results = pool.map(_job, jobs, chunksize=1)
 
@@ -365,7 +376,9 @@ def main(argv=None):
     if a.write_baseline:
         os.makedirs(os.path.join(ROOT, "baseline"), exist_ok=True)
         json.dump({"property": pid, "discharged": sorted(o["name"] for o in real_obs if o["status"] == "discharged"),
-                   "unproved": sorted(o["name"] for o in real_obs if o["status"] != "discharged" and o.get("structural"))},
+                   "unproved": sorted(o["name"] for o in real_obs if o["status"] != "discharged" and o.get("structural")),
+                   "locals": {f"{file}:{qual}": prove.ordered_locals(mods[file].find(qual)) for (file, qual), c in reg.contracts.items()
+                              if not c.extern and file in mods and not file.startswith("@") and _has(mods[file], qual)}},
                   open(base_path, "w"), indent=0)
         print(f"baseline written: {base_path}")
     if native_err:
